@@ -51,54 +51,36 @@ theorem readBlockSwitch_ok (b : Blocks) (st st' : St) (b' : Blocks)
     rw [← this.1]
     exact ⟨readRange_blockCount_pos _ _ _ _ e3, rfl⟩
 
-theorem BlkRel.dec {bd : BlockDec} {b : Blocks} (h : BlkRel bd b) (hc : 2 ≤ b.ntypes → 1 ≤ b.count) :
+theorem BlkRel.dec {bd : BlockDec} {b : Blocks} (h : BlkRel bd b) (hc : 1 ≤ b.count) :
     BlkRel { bd with typeLen := bd.typeLen - 1 } { b with count := b.count - 1 } := by
   obtain ⟨h1, h2, h3, h4, h5, h6, h7, h8, h9⟩ := h
-  refine ⟨h1, h2, h3, h4, h5, h6, h7, fun h2' => ?_, fun hlt => ?_⟩
-  · obtain ⟨a, b', c⟩ := h8 h2'
-    refine ⟨a, b', ?_⟩
-    have := hc h2'
-    show bd.typeLen - 1 = ((b.count - 1 : Nat) : Int)
-    omega
-  · have := h9 hlt
-    show bd.typeLen - 1 < 0
-    omega
+  refine ⟨h1, h2, h3, h4, h5, h6, h7, h8, ?_⟩
+  show bd.typeLen - 1 = ((b.count - 1 : Nat) : Int)
+  omega
 
 /-- the relation `nextM_sim` establishes. -/
 def NextRel (bd : BlockDec) (b : Blocks) (bd' : BlockDec) (b' : Blocks) : Prop :=
   BlkRel bd' b' ∧ bd'.prefixes = bd.prefixes ∧ b'.ntypes = b.ntypes ∧
     (b.ntypes < 2 → b'.count + 1 = b.count ∧ b'.cur = b.cur)
 
-/-- a block that is used up switches, a single-type block runs on (the specification gives it
-    2^24 symbols: `hx`). -/
-theorem nextM_sim (bd : BlockDec) (b : Blocks) (hr : BlkRel bd b) (hx : b.ntypes < 2 → b.count ≠ 0) :
+/-- a block that is used up switches; with a single block type both sides fail there. -/
+theorem nextM_sim (bd : BlockDec) (b : Blocks) (hr : BlkRel bd b) :
     SimRel (NextRel bd b) (nextM bd) (nextInBlock b) := by
   unfold nextM nextInBlock
-  by_cases h2 : 2 ≤ b.ntypes
-  · have htl : bd.typeLen = (b.count : Int) := (hr.2.2.2.2.2.2.2.1 h2).2.2
-    by_cases hc : b.count = 0
-    · rw [if_pos (by omega), if_pos hc]
-      have hs := SimRel.strengthen (blockSwitch_sim bd b hr h2) (P := fun b' => 1 ≤ b'.count ∧ b'.ntypes = b.ntypes)
+  have htl : bd.typeLen = (b.count : Int) := hr.2.2.2.2.2.2.2.2
+  by_cases hc : b.count = 0
+  · rw [if_pos (by omega), if_pos hc]
+    by_cases h2 : 2 ≤ b.ntypes
+    · have hs := SimRel.strengthen (blockSwitch_sim bd b hr h2) (P := fun b' => 1 ≤ b'.count ∧ b'.ntypes = b.ntypes)
         (fun st b' st' h => readBlockSwitch_ok b st st' b' h)
       refine SimRel.bind hs fun bd1 b1 h1 => ?_
       obtain ⟨⟨hrel, hpref⟩, hpos, hnt⟩ := h1
-      exact SimRel.pure ⟨hrel.dec (fun _ => hpos), hpref, hnt, fun hlt => absurd hlt (by omega)⟩
-    · rw [if_neg (by omega), if_neg hc]
-      exact SimRel.pure ⟨hr.dec (fun _ => by omega), rfl, rfl, fun hlt => absurd hlt (by omega)⟩
-  · have hlt : b.ntypes < 2 := by omega
-    have htl : bd.typeLen < 0 := hr.2.2.2.2.2.2.2.2 hlt
-    have hc := hx hlt
-    rw [if_neg (by omega), if_neg hc]
-    refine SimRel.pure ⟨hr.dec (fun h => absurd h h2), rfl, rfl, fun _ => ⟨?_, rfl⟩⟩
+      exact SimRel.pure ⟨hrel.dec hpos, hpref, hnt, fun hlt => absurd hlt (by omega)⟩
+    · exact SimRel.bind (R := fun _ _ => False) (blockSwitch_single bd b hr (by omega)) (fun _ _ hf => hf.elim)
+  · rw [if_neg (by omega), if_neg hc]
+    refine SimRel.pure ⟨hr.dec (by omega), rfl, rfl, fun _ => ⟨?_, rfl⟩⟩
     show b.count - 1 + 1 = b.count
     omega
-
-/-- a single-type block that is used up: the specification stops here. -/
-theorem nextInBlock_exhausted (b : Blocks) (st : St) (h1 : b.ntypes < 2) (h0 : b.count = 0) :
-    nextInBlock b st = (.error .corrupt, st) := by
-  unfold nextInBlock Brotli.readBlockSwitch
-  rw [if_pos h0, if_pos h1]
-  rfl
 
 /-! ### literal context -/
 
@@ -209,12 +191,11 @@ theorem getD_mem_lt {a : Array Nat} {i : Nat} (P : Nat → Prop) (hi : i < a.siz
   exact h _ (Array.getElem_mem hi)
 
 theorem litStep_sim {ws : Nat} {h : Header} {ntL : Nat} {s : State} {st : St} {litB : Blocks}
-    {del : List UInt8} (R : LitRel ws h ntL s st litB del) (p1 p2 : UInt8)
-    (hx : litB.ntypes < 2 → litB.count ≠ 0) :
+    {del : List UInt8} (R : LitRel ws h ntL s st litB del) (p1 p2 : UInt8) :
     SimRel (fun a b => NextRel s.litBlk litB a.1 b.1 ∧ a.2 = b.2 ∧ b.2 < 256)
       (litStepM s p1 p2) (litHeadD h litB p1 p2) := by
   unfold litStepM litHeadD
-  refine SimRel.bind (nextM_sim _ _ R.blk hx) fun bd b hb => ?_
+  refine SimRel.bind (nextM_sim _ _ R.blk) fun bd b hb => ?_
   obtain ⟨hrel, hpref, hnt, hcnt⟩ := hb
   have hcur : bd.type0 = b.cur := hrel.2.2.2.1
   have hlt : b.cur < ntL := by rw [← R.nt, ← hnt]; exact hrel.2.2.2.2.2.1
@@ -287,7 +268,6 @@ theorem litLoop_sim {ws : Nat} {h : Header} {ntL : Nat} {del : List UInt8} :
         d.rdPos = s.dict.rdPos ∧ d.wrPos = s.dict.wrPos + n ∧ d.hist.size = s.dict.hist.size ∧
         (litB.ntypes < 2 → litB'.count + n = litB.count)
     | (.error _, st') =>
-      (litB.ntypes < 2 → st'.out.size < litB.count + st.out.size) →
       ∃ e s', litLoop n (backByte st.out.toList 1) (backByte st.out.toList 2) s = (.error e, s') ∧ e ≠ .eof ∧
         Inv ws s'.dict st'.out.toList del := by
   intro n
@@ -302,21 +282,15 @@ theorem litLoop_sim {ws : Nat} {h : Header} {ntL : Nat} {del : List UInt8} :
     have h2 : s.cmode = s.cmodes.getD s.litBlk.type0 0 := by rw [R.cmode, R.cmodes.1, R.blk.2.2.2.1]
     have hstep := litLoop_succ n (backByte st.out.toList 1) (backByte st.out.toList 2) s h1 h2
     rw [R.rd] at hstep
-    by_cases hx : litB.ntypes < 2 ∧ litB.count = 0
-    · -- the specification's single block is used up
-      rw [readLiterals_succ_apply, nextInBlock_exhausted _ _ hx.1 hx.2]
-      intro hcap
-      have := hcap hx.1
-      omega
-    · have hx' : litB.ntypes < 2 → litB.count ≠ 0 := fun a b => hx ⟨a, b⟩
+    ·
       have hout1 : ∀ l st1, nextInBlock litB st = (.ok l, st1) → st1.out = st.out := by
         intro l st1 hh
-        rcases (nextM_sim _ _ R.blk hx').cases st with ⟨a, b, k, _, _, hy, _⟩ | ⟨e, r, e', st', _, hy, _, _⟩ <;>
+        rcases (nextM_sim _ _ R.blk).cases st with ⟨a, b, k, _, _, hy, _⟩ | ⟨e, r, e', st', _, hy, _, _⟩ <;>
           rw [hh] at hy
         · simp only [Prod.mk.injEq] at hy
           rw [hy.2]; rfl
         · cases hy
-      rcases (litStep_sim R (backByte st.out.toList 1) (backByte st.out.toList 2) hx').cases st with
+      rcases (litStep_sim R (backByte st.out.toList 1) (backByte st.out.toList 2)).cases st with
         ⟨a, b, k, hk, hxm, hym, hR⟩ | ⟨e, r, e', st', hxm, hym, he, ho⟩
       · -- one more literal on both sides
         obtain ⟨bd, sym⟩ := a
@@ -375,13 +349,7 @@ theorem litLoop_sim {ws : Nat} {h : Header} {ntL : Nat} {del : List UInt8} :
         rcases hrl : readLiterals h n l (stOut (stAt st k) (st.out.toList ++ [UInt8.ofNat sym])) with ⟨e3 | litB', st'⟩
         · rw [hrl] at ih1
           dsimp only at ih1 ⊢
-          intro hcap
-          obtain ⟨e4, s4, h4, h5, h6⟩ := ih1 (fun hlt => by
-            rw [hnt] at hlt
-            have := hcap hlt
-            have := (hcnt hlt).1
-            rw [stOut_size, List.length_append, Array.length_toList, List.length_singleton]
-            omega)
+          obtain ⟨e4, s4, h4, h5, h6⟩ := ih1
           exact ⟨e4, s4, by rw [hstep]; exact h4, h5, h6⟩
         · rw [hrl] at ih1
           dsimp only at ih1 ⊢
@@ -421,7 +389,6 @@ theorem litLoop_sim {ws : Nat} {h : Header} {ntL : Nat} {del : List UInt8} :
             · rw [hrs] at hym; cases hym
         obtain ⟨e'', hEq⟩ := hEq
         rw [hEq]
-        intro _
         exact ⟨e, s1, hs1, he, by rw [hd1, ho]; exact R.win⟩
 
 end Compress.Proofs.BrImpl
